@@ -306,6 +306,35 @@ REDIS_ALLOWED = {
 }
 
 
+def redis_queue_names(ctx: Ctx, rule: str) -> None:
+    """A Redis list / sorted set is named after queue AND priority (`q:<queue>:<priority>:<marker>`); the readers of the consumer ask for one priority
+    at a time. So every name built for a message must carry that message's priority - a name built with the default priority files HIGH / LOW
+    messages where no reader of their priority ever looks (they are lost to every consumer)."""
+    n = 0
+    qn = ctx.func("repid.connections.redis.utils.qnc")
+    prio_param = [p.arg for p in qn.params()][1]
+    # one named exception: the orphan clean-up in __get_message_details has only the short name of a message whose data is gone
+    exempt = {f"{C.REDIS_CONS}.__get_message_details"}
+    for fn in ctx.prog.iter_functions():
+        if not fn.module.name.startswith("repid.connections.redis") or fn.qualname == qn.qualname:
+            continue
+        for c in ast.walk(fn.node):
+            if not (isinstance(c, ast.Call) and any(cal.qualname == qn.qualname for cal in ctx.res.callees(fn, c, record=False))):
+                continue
+            n += 1
+            pr = C.arg(c, 1, prio_param)
+            ptxt = C.utext(fn, pr) if pr is not None else None
+            params = [p.arg for p in fn.params()]
+            if fn.qualname in exempt and pr is None:
+                ctx.ok(rule, f"{fn.short()}: {unparse(c)[:50]}", "orphan clean-up (message data already gone): named exception")
+                continue
+            ok = ptxt is not None and (ptxt.endswith(".priority") or ptxt in params or ptxt.endswith(".priority.value") or ptxt.endswith(".value"))
+            ctx.check(ok, rule, fn, f"{unparse(c)[:60]} in {fn.short()}", f"named after the message's / the reader's priority ({ptxt})",
+                      f"{fn.short()} builds the Redis queue name {unparse(c)[:80]} without the priority of the message (default priority used): messages of every other priority "
+                      "are filed where no reader of their priority looks - they can never be consumed again", node=c, instance=f"{fn.short()}: {unparse(c)[:50]}")
+    ctx.floor(rule, n, 8, "Redis queue names built")
+
+
 def redis_txn_rules(ctx: Ctx, ops=("enqueue", "ack", "nack", "reject", "requeue"), rule_t="R-C01-TRANSFER", rule_a="R-C01-ATOMIC") -> None:
     targets = [(op, ctx.func(f"{C.REDIS_BROKER}.{op}"), same_class_policy(C.REDIS_BROKER, ("maintenance",))) for op in ops]
     targets.append(("take", ctx.func(f"{C.REDIS_CONS}.__get_message_name"),
@@ -614,16 +643,55 @@ def redis_op_fields(ctx: Ctx, rule: str) -> None:
     for op, call_attr in (("enqueue", "hsetnx"), ("requeue", "hset")):
         of = ctx.func(f"{C.REDIS_BROKER}.{op}")
         w = {}
+        how = {}
         for c in ast.walk(of.node):
             if isinstance(c, ast.Call) and isinstance(c.func, ast.Attribute) and c.func.attr in ("hsetnx", "hset"):
                 if len(c.args) >= 3 and isinstance(c.args[1], ast.Constant):
-                    w[c.args[1].value] = (unparse(c.args[0]), unparse(c.args[2]))
+                    w[c.args[1].value] = (unparse(c.args[0]), C.utext(of, c.args[2], calls="all"))
+                    how[c.args[1].value] = c.func.attr
+                for kname, vname in (("key", "value"),):
+                    kk, vv = C.kw(c, kname), C.kw(c, vname)
+                    if isinstance(kk, ast.Constant) and vv is not None:
+                        w[kk.value] = (unparse(c.args[0]) if c.args else unparse(C.kw(c, "name")), C.utext(of, vv, calls="all"))
+                        how[kk.value] = c.func.attr
                 mp = C.kw(c, "mapping")
+                mp = C.inline_locals(of, mp) if isinstance(mp, ast.Name) else mp
                 if isinstance(mp, ast.Dict):
                     for k, v in zip(mp.keys, mp.values):
                         if isinstance(k, ast.Constant):
-                            w[k.value] = (unparse(c.args[0]) if c.args else "", unparse(v))
+                            w[k.value] = (unparse(c.args[0]) if c.args else "", C.utext(of, v, calls="all"))
+                            how[k.value] = c.func.attr
         ok = w == {"payload": ("mnc(key)", "payload"), "parameters": ("mnc(key)", "params.encode()")}
         ctx.check(ok, rule, of, f"redis {op} writes payload and parameters of the message's own hash", "mnc(key): payload, params.encode()",
                   f"redis {op} writes {w}: the {'re-queued' if op == 'requeue' else 'enqueued'} message does not carry its {'new ' if op == 'requeue' else ''}payload and parameters",
                   instance=f"redis {op} fields")
+        if op == "requeue":
+            keep_old = sorted(k for k, cmd in how.items() if cmd != "hset")
+            ctx.check(not keep_old, rule, of, "redis requeue overwrites the stored payload and parameters", "HSET (not HSETNX) on the existing hash",
+                      f"redis requeue writes {keep_old} with HSETNX: the message's hash already exists, so the new payload / parameters (retry counter, next execution time, restarted "
+                      "time-to-live clock) are silently not stored and the old ones stay in force", instance="redis requeue overwrites")
+
+
+def rabbit_bounce_rules(ctx: Ctx, rule: str) -> None:
+    """RabbitMQ deliveries the consumer cannot take (paused, foreign topic, not consuming) are bounced with basic_reject: unconditionally with requeue
+    (the default) - the message belongs to somebody else and must stay available - and a bounced delivery is not ALSO kept: nothing registers its
+    delivery tag or hands it to the local queue afterwards (the server redelivers it, two holders would exist)."""
+    f = ctx.func(f"{C.RABBIT_CONS}.on_new_message")
+    g = ctx.icfg(f)
+    aw = await_map(g)
+    rejects = [n for n in g.calls() if (n.callee or "").endswith("basic_reject")]
+    ctx.floor(rule, len(rejects), 2, "basic_reject calls in rabbitmq on_new_message")
+    keeps = [n.id for n in g.calls() if (n.callee or "") == "self.queue.put"] + \
+            [n.id for n in g.nodes if n.kind == "store" and isinstance(n.ast, ast.Subscript) and "_id_to_delivery_tag" in unparse(n.ast.value)]
+    ctx.require(bool(keeps), f"{f.qualname}: hand-out to the local queue not found")
+    for r in rejects:
+        rq = C.kw(r.ast, "requeue")
+        ok = rq is None or C.is_const(rq, True)
+        ctx.check(ok, rule, f, f"{unparse(r.ast)[:60]}: bounced with requeue", "requeue (default True)",
+                  f"rabbitmq on_new_message bounces a delivery with requeue={unparse(rq) if rq is not None else ''}: when the expression is false the message is dropped (or dead-lettered) although "
+                  "it was never this consumer's to dispose of - the worker that has an actor for it never receives it", node=r, instance=f"rabbitmq bounce requeues: line {r.lineno}")
+        start = aw.get(r.id, r)
+        after = flow.reach(g, [start.id], flow.NORMAL_KINDS)
+        ctx.check(not (after & set(keeps)), rule, f, f"{unparse(r.ast)[:60]}: a bounced delivery is not kept", "return after the bounce",
+                  "rabbitmq on_new_message goes on after bouncing a delivery and also registers / hands out that message: the server redelivers it to another consumer while this one "
+                  "keeps a copy - the message is held twice and a successful job runs twice", node=r, instance=f"rabbitmq bounce ends delivery: line {r.lineno}")
